@@ -594,12 +594,12 @@ pub fn run(cfg: RunCfg) {
         "liveness is checked only as bounded progress in a fair scenario (holder responsive, environment completes every fetch)".into(),
     ];
     vh_core::section!(
-        rep, "history", (40_000, 3_000_000), 16,
+        rep, "history", (160_000, 3_000_000), 16,
         "non-trivial: >=2 holders and >=1 completion and (range or full set) and >=1 ageing across the fetch deadline; distinct by history",
         case_strategy, check
     );
     vh_core::section!(
-        rep, "progress", (10_000, 600_000), 16,
+        rep, "progress", (40_000, 600_000), 16,
         "non-trivial: something queued when the advertising starts; target = missing, in-range, not beyond farthest",
         progress_strategy, check_progress
     );
